@@ -302,8 +302,11 @@ def run_shard(shard, ctx):
             data = bytes(data)
             start = rng.choice([0, 0, None, rng.randrange(0, n + 2)])
             maxrange = rng.choice([None, None, rng.randrange(0, n + 2), 0])
+            fileobj = rng.choice(["bytesio", "bytesio", "mmap"])
+            if fileobj == "mmap" and start is not None and start > n:
+                start = n  # (an mmap object itself refuses to seek beyond its end: not the scanner's doing)
             check_case({"op": "artifact", "data": data, "start": start, "maxrange": maxrange, "pos": rng.randrange(0, n + 1), "bs": bs,
-                        "fileobj": rng.choice(["bytesio", "bytesio", "mmap"])}, ctx)
+                        "fileobj": fileobj}, ctx)
     else:
         raise ValueError(kind)
 
